@@ -45,7 +45,7 @@ def digest (out : String) : List String :=
     let body := if s.startsWith "0x" then (s.drop 2).toString else s
     if !body.isEmpty && body.toList.all (fun c => c.isDigit || ('A' ≤ c && c ≤ 'F')) then some s else none
 
-def handleL4Core (strict : Bool) (head srcE inE : String) (expects : List String) (ans : String) : Verdict :=
+def handleL4Core (strict : Bool) (fuel : Nat) (head srcE inE : String) (expects : List String) (ans : String) : Verdict :=
     match words head, pctDecode srcE.trimAscii.toString, pctDecode inE.trimAscii.toString with
     | ["cli", _], none, some _ =>
       -- the file is not valid UTF-8: bin.rs reports the read error and exits with status 1, nothing runs
@@ -55,7 +55,7 @@ def handleL4Core (strict : Bool) (head srcE inE : String) (expects : List String
     | ["cli", flag], some src, some inp =>
       if ans.startsWith "NONDET" then
         { model := ans, specOk := false, spec := "identical output on repeated runs (C19)", nontrivial := true } else
-      let r := runCLI src (splitLines inp) (flag == "i") 200000
+      let r := runCLI src (splitLines inp) (flag == "i") fuel
       let model := fmtCli r
       if r.budget then { model := ans, specOk := true, spec := "(model budget exhausted: not compared)", nontrivial := false } else
       let realOut := (pctDecode (fieldOf ans "out")).getD ""
@@ -105,12 +105,12 @@ def handleL4Core (strict : Bool) (head srcE inE : String) (expects : List String
         nontrivial := !r.diag && r.trace.length > 1 }
     | _, _, _ => bad
 
-def handleL4 (strict : Bool) (req ans : String) : Verdict :=
+def handleL4 (strict : Bool) (fuel : Nat) (req ans : String) : Verdict :=
   match req.splitOn " | " with
   | head :: srcE :: inE :: exps =>
     if exps.all (·.startsWith "expect=") then
       match exps.mapM (fun e => pctDecode (e.drop 7).toString.trimAscii.toString) with
-      | some es => handleL4Core strict head srcE inE es ans
+      | some es => handleL4Core strict fuel head srcE inE es ans
       | none => bad
     else bad
   | _ => bad
